@@ -1,0 +1,42 @@
+//go:build verif
+
+// Package verifhook provides instrumentation points for external verification harnesses.
+package verifhook
+
+import "sync/atomic"
+
+type FSFunc func(op, site, path, path2 string)
+type PauseFunc func(point string)
+
+var fsHook atomic.Pointer[FSFunc]
+var pauseHook atomic.Pointer[PauseFunc]
+
+func SetFS(f FSFunc) {
+	if f == nil {
+		fsHook.Store(nil)
+		return
+	}
+	fsHook.Store(&f)
+}
+
+func SetPause(f PauseFunc) {
+	if f == nil {
+		pauseHook.Store(nil)
+		return
+	}
+	pauseHook.Store(&f)
+}
+
+// FS is called after a successful file-system mutation.
+func FS(op, site, path, path2 string) {
+	if f := fsHook.Load(); f != nil {
+		(*f)(op, site, path, path2)
+	}
+}
+
+// Pause is called at named scheduling points.
+func Pause(point string) {
+	if f := pauseHook.Load(); f != nil {
+		(*f)(point)
+	}
+}
